@@ -1,6 +1,6 @@
 /-
-  AHP.Lemmas.FormatLexDoc — document level (single-root documents, element class normal: the pretty and the
-  mini formatter): the formatter's output text is the rendering of `outToks`, a token list in the domain of the
+  AHP.Lemmas.FormatLexDoc — document level (single-root documents, all four formatter classes): the formatter's
+  output text is the rendering of `outToks`, a token list in the domain of the
   strict lexer (`doc_render`, `doc_listOK`), and the plain parser of the formatter model builds from those tokens
   a tree with the same doctype and the same canonical skeleton (`doc_reparse`).
 -/
@@ -38,25 +38,25 @@ def outBlocks (cfg : Cfg) (dt : Option Str) (u : FNode) : List FNode :=
 def outToks (cfg : Cfg) (dt : Option Str) (u : FNode) : List Token :=
   dtToks dt ++ ftoksL (outBlocks cfg dt u)
 
-theorem doctypeLine_eq (dt : Option Str) :
-    doctypeLine dt = renderToks (dtToks dt) ++ renderToks (ftoksL (dtBlock dt)) := by
+theorem doctypeLine_eq (y : TagStyle) (dt : Option Str) :
+    doctypeLine dt = renderToksY y (dtToks dt) ++ renderToksY y (ftoksL (dtBlock dt)) := by
   cases dt with
   | none => rfl
   | some d =>
     by_cases hd : d.isEmpty = true
-    · simp [doctypeLine, dtToks, dtBlock, hd, renderToks, ftoksL]
-    · simp [doctypeLine, dtToks, dtBlock, hd, renderToks, ftoksL, FNode.toks, renderTok, str]
+    · simp [doctypeLine, dtToks, dtBlock, hd, renderToksY, ftoksL]
+    · simp [doctypeLine, dtToks, dtBlock, hd, renderToksY, renderTokY, ftoksL, FNode.toks, renderTok, str]
 
-/-- **(a), rendering**: `getHTML` of the formatter (pretty / mini class) on a single-root document is the
-    rendering of `outToks` -/
-theorem doc_render (cfg : Cfg) (hk : cfg.kind = .normal) (dt : Option Str) (n : Str) (st : AStore) (sc : Bool)
+/-- **(a), rendering**: `getHTML` of any of the four formatter classes on a single-root document is the
+    rendering of `outToks` in the start-tag style of the class -/
+theorem doc_render (cfg : Cfg) (dt : Option Str) (n : Str) (st : AStore) (sc : Bool)
     (kids : List FNode) (hw : n ≠ wrapper) (hs : (FNode.elem n st sc kids).Strict) :
     docHTML dt (some (dec0 cfg (FNode.elem n st sc kids).toNode))
-      = .ok (renderToks (outToks cfg dt (.elem n st sc kids))) := by
-  have hout := outer_decorate_eq cfg hk ⟨0, 0⟩ [] (.elem n st sc kids) (strict_textLike _ hs)
+      = .ok (renderToksY (styleOf cfg.kind) (outToks cfg dt (.elem n st sc kids))) := by
+  have hout := outer_decorate_eq cfg ⟨0, 0⟩ [] (.elem n st sc kids) (strict_textLike _ hs)
   unfold outToks outBlocks
-  rw [renderToks_append, render_mergeL, ftoksL_append, renderToks_append, ← List.append_assoc, ← doctypeLine_eq,
-    ← hout]
+  rw [renderToksY_append, render_mergeL, ftoksL_append, renderToksY_append, ← List.append_assoc,
+    ← doctypeLine_eq, ← hout]
   simp only [dec0, FNode.toNode, decorate, docHTML, hw, if_false]
 
 theorem strict_dtBlock (dt : Option Str) : StrictL (dtBlock dt) := by
@@ -95,8 +95,8 @@ theorem doc_listOK (cfg : Cfg) (hi : IndentWS cfg) (dt : Option Str) (u : FNode)
 
 /-- **(a)**: the strict lexer reads the output text back as `outToks` -/
 theorem doc_lex (cfg : Cfg) (hi : IndentWS cfg) (dt : Option Str) (u : FNode) (hs : u.Strict) (hdt : DtOK dt) :
-    lexStrict (renderToks (outToks cfg dt u)) = some (outToks cfg dt u) :=
-  lexStrict_renderToks _ (doc_listOK cfg hi dt u hs hdt)
+    lexStrict (renderToksY (styleOf cfg.kind) (outToks cfg dt u)) = some (outToks cfg dt u) :=
+  lexStrict_renderToksY _ (styleOf_ok cfg.kind) _ (doc_listOK cfg hi dt u hs hdt)
 
 /-! ### the plain parser on the output tokens -/
 
